@@ -450,7 +450,7 @@ def cls_index(ex, o):
         live = []
         for c in conds:
             s_ = z3.Solver()
-            s_.set('timeout', 2000)
+            s_.set('timeout', 30000)  # the resource limit below ends the attempt (machine independent), not the clock
             s_.set('smt.mbqi', False)  # only `unsat` matters here; model-based instantiation can ignore the time limit
             s_.set('rlimit', 20000000)
             for p in ex.pc:
@@ -1155,7 +1155,10 @@ def discharge(ob, timeout_ms=20000, seed=0, both=False):
     # quick attempts first (the generic pipeline prints the whole query as SMT-LIB text for cvc5 before it asks z3,
     # which costs more than the proof itself for these large quantified contexts)
     if not ob.expect_sat and not both and not z3.is_true(z3.simplify(ob.goal)):
-        r = _quick(([(pc2, 2000)] if len(pc2) != len(ob.pc) else []) + [(ob.pc, 4000)], ob.goal, timeout_ms, seed)
+        # the time budgets are generous on purpose: the resource limit (deterministic, machine independent) is what ends a
+        # hopeless attempt, so that a slower machine gets the same verdicts (a 4 s / 8 s wall-clock cap made a proved
+        # obligation come back `refuted` on a loaded copy of the sandbox)
+        r = _quick(([(pc2, int(timeout_ms))] if len(pc2) != len(ob.pc) else []) + [(ob.pc, int(timeout_ms))], ob.goal, timeout_ms, seed)
         if r is not None:
             return r
     if len(pc2) == len(ob.pc):
@@ -1179,7 +1182,7 @@ def discharge(ob, timeout_ms=20000, seed=0, both=False):
 
     t0 = _time.time()
     sq = z3.Solver()
-    sq.set('timeout', min(int(timeout_ms), 6000))
+    sq.set('timeout', int(timeout_ms))
     sq.set('random_seed', seed)
     sq.set('rlimit', 60000000)
     for p in pc2:
@@ -1191,7 +1194,7 @@ def discharge(ob, timeout_ms=20000, seed=0, both=False):
     if rq == z3.sat and not both:
         model = solve.small_model(ob, sq)
         sf = z3.Solver()
-        sf.set('timeout', min(int(timeout_ms), 8000))
+        sf.set('timeout', int(timeout_ms))
         sf.set('random_seed', seed)
         sf.set('smt.mbqi', False)  # only `unsat` (the counter-model was ill typed) matters
         sf.set('rlimit', 60000000)
